@@ -30,7 +30,7 @@ RULE = ('A: include trees (all ordered rooted tree shapes up to N files + repeat
 ASSUMPTIONS = ['in-memory readers registered after the two default readers', 'scratch directory created per run and removed']
 WITNESSES = ['later_binding_overrides_across_include', 'binding_after_include_wins', 'depth3', 'tree_mirrored',
              'imports_per_file', 'missing_include_ioerror', 'location_order', 'reader_order_within_location',
-             'absolute_bypasses', 'package_relative', 'namespace_package_location', 'namespace_package_two_portions', 'files_then_bindings_then_finalize',
+             'absolute_bypasses', 'package_relative', 'namespace_package_location', 'namespace_package_two_portions', 'missing_nested_include_aborts', 'files_then_bindings_then_finalize',
              'finalize_disabled', 'unknown_default_error', 'real_files', 'repeated_inclusion', 'second_resolution_fresh', 'location_registered_twice']
 
 MEM1, MEM2 = {}, {}
@@ -492,6 +492,35 @@ def run_special_case(case, res):
                       'got %s %r, expected %r' % (desc, out, got, want), desc)
       else:
         res.w('namespace_package_location')
+    elif kind in ('earlier_copy_missing_include', 'earlier_reader_missing_include'):
+      # the copy that resolves first includes a name nobody can read: the parse fails; a later copy is not a fallback
+      if kind == 'earlier_copy_missing_include':
+        for loc, body in (('locA', "c14.f.x = 'A'\ninclude 'c14_nobody_has_this.gin'\nc14.f.y = 'A2'\n"),
+                          ('locB', "c14.f.x = 'B'\nc14.f.z = 'B2'\n")):
+          os.makedirs(os.path.join(base, loc))
+          with open(os.path.join(base, loc, 'm.gin'), 'w') as fh:
+            fh.write(body)
+          gin.add_config_file_search_path(os.path.join(base, loc))
+      else:
+        os.makedirs(os.path.join(base, 'locA'))
+        with open(os.path.join(base, 'locA', 'm.gin'), 'w') as fh:     # read by the default (file system) reader
+          fh.write("c14.f.x = 'A'\ninclude 'c14_nobody_has_this.gin'\n")
+        gin.add_config_file_search_path(os.path.join(base, 'locA'))
+        MEM1[os.path.join(base, 'locA', 'm.gin')] = "c14.f.x = 'M1'\nc14.f.z = 'M1z'\n"   # a later reader's copy
+      try:
+        gin.parse_config_file('m.gin')
+        out = 'accepted'
+      except IOError:
+        out = 'IOError'
+      except Exception as e:  # pylint: disable=broad-except
+        out = type(e).__name__
+      r = F()
+      if out != 'IOError' or r[2] is not None or r[1] is not None:
+        res.violation('include_not_inplace', '%r: the first readable copy includes a name nobody can read: parse %s, '
+                      'f() = %r (nothing of a later copy may be applied, the statement after the include neither)' %
+                      (desc, out, r), desc)
+      else:
+        res.w('missing_nested_include_aborts')
     elif kind.startswith('namespace_two_portions'):
       # a PEP 420 namespace package spread over two sys.path entries; the file may live in either portion
       pk = 'c14ns_' + kind
@@ -528,7 +557,8 @@ def run_special_case(case, res):
 
 SPECIALS = ['absolute_present', 'absolute_missing', 'package_regular', 'package_nested', 'namespace_location_missing',
             'namespace_location_later', 'namespace_location_present', 'namespace_two_portions_first',
-            'namespace_two_portions_second', 'namespace_two_portions_include']
+            'namespace_two_portions_second', 'namespace_two_portions_include', 'earlier_copy_missing_include',
+            'earlier_reader_missing_include']
 
 
 # ------------------------------------------------------------------------------------ C: multi-file entry point
